@@ -290,7 +290,7 @@ impl<'a, E: EndiannessWrite, V: EncodingVersion> XTypesSerializer<'a, E, V> {
             }
             TypeKind::UNION => {
                 for v in v.get_complex_values(member_id)? {
-                    self.serialize_funion_type(v)?;
+                    self.serialize_t_as_nested(v)?;
                 }
             }
             TypeKind::BITSET => todo!(),
